@@ -266,7 +266,7 @@ func cmdCheck(args []string) {
 			trusted[name] = true
 			continue
 		}
-		fi := V.funcsByKey[name]
+		fi := V.funcInfoForContract(pkg, key, fct)
 		if fi == nil {
 			engineErrs[name] = "function under contract no longer exists in the working tree"
 			continue
